@@ -63,7 +63,10 @@ class GeckoAsyncUdpProtocol(asyncio.DatagramProtocol):
             "GeckoAsyncUdpProtocol: connection lost from %s (%s)", self.transport, exc
         )
         self.transport = None
-        if self._on_connection_lost is not None:
+        if (
+            self._on_connection_lost is not None
+            and not self._on_connection_lost.done()
+        ):
             self._on_connection_lost.set_result(True)
 
     def error_received(self, exc) -> None:
@@ -76,7 +79,11 @@ class GeckoAsyncUdpProtocol(asyncio.DatagramProtocol):
         return self.transport is not None
 
     def disconnect(self) -> None:
+        transport = self.transport
         self.connection_lost(None)
+        # Release the UDP endpoint too, otherwise every reconnect leaks a socket
+        if transport is not None:
+            transport.close()
 
     @property
     def queue(self) -> AsyncPeekableQueue:
